@@ -216,7 +216,7 @@ def kwargs_of(c):
     from dateutil import rrule as R
     kw = {"dtstart": dtstart_obj(c), "interval": c["interval"]}
     if c["wkst"] is not None:
-        kw["wkst"] = R.weekdays[c["wkst"]] if c.get("scalars") else c["wkst"]
+        kw["wkst"] = R.weekdays[c["wkst"]] if (c.get("scalars") or c.get("wkst_obj")) else c["wkst"]
     if c.get("count") is not None:
         kw["count"] = c["count"]
     u = until_obj(c)
@@ -237,11 +237,20 @@ def kwargs_of(c):
 
 
 def build(c):
+    """construct the rule; with c["fwd"] = k the constructor runs while the PROCESS-WIDE calendar.firstweekday() is k
+    (it is read by rrule.__init__ when wkst is None) and the previous value is restored afterwards"""
     from dateutil import rrule as R
-    import warnings
+    import warnings, calendar
+    fwd = c.get("fwd")
+    old = calendar.firstweekday()
     with warnings.catch_warnings():
         warnings.simplefilter("ignore")
-        return R.rrule(c["freq"], **kw_clean(kwargs_of(c)))
+        try:
+            if fwd is not None:
+                calendar.setfirstweekday(fwd)
+            return R.rrule(c["freq"], **kw_clean(kwargs_of(c)))
+        finally:
+            calendar.setfirstweekday(old)
 
 
 def kw_clean(kw):
@@ -252,7 +261,8 @@ def wire(c):
     def ol(v):
         return "-" if v is None else vlib.ilist(v)
     wd = c.get("byweekday")
-    toks = [str(c["freq"]), str(c["interval"]), vlib.oint(c["wkst"]), vlib.oint(c.get("count")),
+    toks = [str(c["freq"]), str(c["interval"]),
+            vlib.oint(c["wkst"]) + ("" if c.get("fwd") is None else "@%d" % c["fwd"]), vlib.oint(c.get("count")),
             ol(c.get("until")), vlib.ilist(c["dtstart"]), str({"date": 0, "naive": 0, "aware1": 1, "aware2": 2, "aware3": 3}[c["kind"]]),
             ol(c.get("bysetpos")), ol(c.get("bymonth")), ol(c.get("bymonthday")), ol(c.get("byyearday")), ol(c.get("byeaster")),
             ol(c.get("byweekno")), "-" if wd is None else vlib.ilist([x for p in wd for x in p]),
@@ -261,7 +271,7 @@ def wire(c):
 
 
 def canon(c):
-    return json.dumps({k: c.get(k) for k in ["freq", "interval", "wkst", "count", "until", "dtstart", "kind", "n"] + BYKEYS}, sort_keys=True)
+    return json.dumps({k: c.get(k) for k in ["freq", "interval", "wkst", "fwd", "wkst_obj", "count", "until", "dtstart", "kind", "n"] + BYKEYS}, sort_keys=True)
 
 
 def item(x):
@@ -425,6 +435,38 @@ def impl_orig_dump(c, r):
 
 # ---------------------------------------------------------------------------------- correspondence
 
+def ambient_cases(ctx, tag, n_random):
+    """rules built while calendar.firstweekday() is k = 0..6 (process-wide state, read by the constructor when wkst is
+    None): every k x wkst in {None, explicit 0 = MO, another int, a weekday object} x the week-start-sensitive
+    families (WEEKLY interval 2-3 with several BYDAY, YEARLY BYWEEKNO incl. 1 / 52 / 53 / -1, with and without
+    BYDAY), plus generated rules under a random k"""
+    rng = ctx.subrng(tag)
+    out = []
+    fams = [
+        {"freq": 2, "interval": 2, "dtstart": [1997, 8, 5, 9, 0, 0, 0], "byweekday": [[1, 0], [6, 0]], "count": 6, "n": 8},
+        {"freq": 2, "interval": 3, "dtstart": [2021, 3, 10, 8, 30, 0, 0], "byweekday": [[0, 0], [2, 0], [5, 0]], "n": 9},
+        {"freq": 0, "interval": 1, "dtstart": [2019, 1, 1, 9, 0, 0, 0], "byweekno": [1], "n": 10},
+        {"freq": 0, "interval": 1, "dtstart": [2019, 1, 1, 9, 0, 0, 0], "byweekno": [53, -1], "n": 10},
+        {"freq": 0, "interval": 1, "dtstart": [2019, 1, 1, 9, 0, 0, 0], "byweekno": [52, -1], "byweekday": [[6, 0], [0, 0]], "n": 8},
+        {"freq": 0, "interval": 1, "dtstart": [1997, 5, 12, 9, 0, 0, 0], "byweekno": [20], "byweekday": [[0, 0]], "n": 4},
+    ]
+    for k in range(7):
+        for fam in fams:
+            for wk, obj in ((None, False), (0, False), (0, True), ((k + 3) % 7, False), ((k + 1) % 7, True)):
+                c = {"wkst": wk, "kind": "naive", "fwd": k, "wkst_obj": obj}
+                c.update(fam)
+                out.append(c)
+    for _ in range(n_random):
+        c = gen_case(rng, freqs=[0, 2, 2, 3])
+        plan_until(c, rng)
+        c["fwd"] = rng.randint(0, 6)
+        c["wkst_obj"] = rng.random() < 0.5
+        if rng.random() < 0.4:
+            c["wkst"] = 0
+        out.append(c)
+    return out
+
+
 def gen_cases(ctx, tag, n, malformed_rate=0.0, freqs=None):
     rng = ctx.subrng(tag)
     out = []
@@ -442,14 +484,29 @@ def split_resp(resp):
     return t[1], t[2:]
 
 
+def classify(ctx, cases, tag):
+    """which exactness theorem (RRule.family, Spec/RRuleSupported.lean = the hypothesis of
+    iter_eq_spec_supported_partial) covers each sampled rule"""
+    for c, rsp in zip(cases, ctx.driver(["rrule.supported " + wire(c) for c in cases])):
+        fam = rsp.split()[1] if rsp.startswith("ok ") else "-"
+        ctx.count("rules_sampled")
+        ctx.count(tag + "_rules_sampled")
+        if fam != "-":
+            ctx.count("rules_under_exactness_theorem")
+            ctx.count(tag + "_rules_under_exactness_theorem")
+            ctx.count("theorem_family_" + fam)
+
+
 def correspondence(ctx):
     basecorr.run(ctx)
     cases = list(WITNESS_CASES) + gen_cases(ctx, "corr", ctx.budget(300, 5000), malformed_rate=0.15)
+    cases += ambient_cases(ctx, "corr-ambient", ctx.budget(30, 600))
     reqs_c = ["rrule.construct " + wire(c) for c in cases]
     reqs_i = ["rrule.iter %s %d %d" % (wire(c), c["n"], FUEL[c["freq"]]) for c in cases]
     got_c = ctx.driver(reqs_c)
     got_i = ctx.driver(reqs_i)
     got_o = ctx.driver(["rrule.orig " + wire(c) for c in cases])
+    classify(ctx, cases, "corr")
     for c, gc, gi, go in zip(cases, got_c, got_i, got_o):
         st, items, r = run_impl(c, c["n"])
         ctx.traces += 1
@@ -599,12 +656,20 @@ def oracle(ctx):
         evaluate(ctx, sw[i:i + 1000])
         if len(unknown_violations(ctx)) >= 3:
             break
+    amb = ambient_cases(ctx, "oracle-ambient", ctx.budget(40, 800))
+    ctx.count("oracle_ambient_firstweekday_cases", len(amb))
+    evaluate(ctx, amb)
     rng_cases = gen_cases(ctx, "oracle", ctx.budget(400, 6500))
     for i in range(0, len(rng_cases), 500):
         evaluate(ctx, rng_cases[i:i + 500])
         if len(unknown_violations(ctx)) >= 3:
             ctx.note("oracle stopped after %d generated rules: failing inputs found" % (i + 500))
             break
+    ctx.note("rules_under_exactness_theorem: %d of %d sampled rules (%.1f %%) satisfy `SupportedBy` for some family, i.e. lie under "
+             "iter_eq_spec_supported_partial; per family: %s"
+             % (ctx.hist.get("rules_under_exactness_theorem", 0), ctx.hist.get("rules_sampled", 0),
+                100.0 * ctx.hist.get("rules_under_exactness_theorem", 0) / max(1, ctx.hist.get("rules_sampled", 0)),
+                ", ".join("%s %d" % (k[len("theorem_family_"):], v) for k, v in sorted(ctx.hist.items()) if k.startswith("theorem_family_"))))
     ncap = ctx.hist.get("corr_status_cap", 0) + ctx.hist.get("oracle_status_cap", 0)
     nall = sum(v for k, v in ctx.hist.items() if k.startswith("corr_status_") or k.startswith("oracle_status_"))
     ctx.note("per-rule cap = %d executed source %s of dateutil/rrule.py (a function of the rule, not of the clock): "
@@ -662,6 +727,7 @@ def evaluate(ctx, cases):
 
 
 def _evaluate(ctx, cases, pending):
+    classify(ctx, cases, "oracle")
     runs = []
     for c in cases:
         st, items, r = run_impl(c, c["n"])
@@ -704,7 +770,7 @@ def _evaluate(ctx, cases, pending):
             if c.get(k) is not None:
                 ctx.count("oracle_has_" + k)
         ctx.count("oracle_kind_" + c["kind"])
-        case = {"rule": {k: c.get(k) for k in ["freq", "interval", "wkst", "count", "until", "dtstart", "kind", "n", "until_isdate", "until_othertz", "scalars"] + BYKEYS}}
+        case = {"rule": {k: c.get(k) for k in ["freq", "interval", "wkst", "fwd", "wkst_obj", "count", "until", "dtstart", "kind", "n", "until_isdate", "until_othertz", "scalars"] + BYKEYS}}
         start = DTm(*c["dtstart"][:6])
         # intrinsic laws on whatever was yielded
         tzi = dtstart_obj(c).tzinfo if c["kind"] != "date" else None
@@ -838,7 +904,7 @@ def k_c01e(v):
         return False
     y, m, dd = r["dtstart"][:3]
     ds = date(y, m, dd)
-    wk = r["wkst"] or 0
+    wk = r["wkst"] if r["wkst"] is not None else (r.get("fwd") or 0)
     if ds.weekday() == wk or d.get("kind") not in ("differs", "missing"):
         return False
     w0 = ds - timedelta(days=(ds.weekday() - wk) % 7)
